@@ -459,8 +459,11 @@ class Ctx:
     def may_raise_anything(self):
         self.allow_any_raise = True
 
-    def loop(self, ordinal: int, inv: Callable, havoc: dict | None = None, name: str = "", after=None):
-        self.loops[ordinal] = LoopSpec(ordinal, inv, havoc, name or f"#loop{ordinal}", after)
+    def loop(self, ordinal: int, inv: Callable, havoc: dict | None = None, name: str = "", after=None, owner: str | None = None):
+        """Invariant of the ordinal-th loop (source order) of the function under proof, or -- with `owner` -- of a nested
+        function of it (closure): owner is the nested function's key, ordinals count inside that function."""
+        key = ordinal if owner is None else (owner, ordinal)
+        self.loops[key] = LoopSpec(ordinal, inv, havoc, name or (f"#loop{ordinal}" if owner is None else f"{owner.split('.')[-1]}#loop{ordinal}"), after)
 
     def decreases(self, root):
         """Root tree argument: recursive calls inside the same recursion group must be on strict sub-terms."""
@@ -470,7 +473,12 @@ class Ctx:
     def loop_for(self, ip, st, fr):
         fi = fr.finfo
         owner = getattr(self, "loop_owner", None) or self.contract.key
-        if fi is None or fi.key != owner:
+        if fi is None:
+            return None
+        if fi.key != owner:
+            if fi.key.startswith(owner + ".") and fi.key in ip.src.funcs:
+                ordinal = self.contract.loop_ordinal(ip.src, st, fi.key)
+                return self.loops.get((fi.key, ordinal))
             return None
         ordinal = self.contract.loop_ordinal(ip.src, st, owner)
         return self.loops.get(ordinal)
@@ -802,12 +810,18 @@ def verify_function(src, registry: Registry, schema_factory, models, ct: Contrac
             if outcome == "return":
                 val = ip.models.narrow(ip, val)
                 goals = []
-                for name, fn_, meta in c.ensures_:
-                    g = fn_(val)
-                    for j, t in enumerate(g if isinstance(g, (list, tuple)) else [g]):
-                        if t is None:
-                            continue
-                        goals.append((f"{ip.oid_prefix} / {name}" + (f"#{j}" if isinstance(g, (list, tuple)) and len(g) > 1 else ""), t, name))
+                try:
+                    for name, fn_, meta in c.ensures_:
+                        g = fn_(val)
+                        for j, t in enumerate(g if isinstance(g, (list, tuple)) else [g]):
+                            if t is None:
+                                continue
+                            goals.append((f"{ip.oid_prefix} / {name}" + (f"#{j}" if isinstance(g, (list, tuple)) and len(g) > 1 else ""), t, name))
+                except PathCut:
+                    # a returned closure, called by the post-condition, contains a loop: this path checked an arbitrary
+                    # iteration of it (its obligations are recorded) and ends here
+                    outcome = "cut"
+                    goals = []
                 registry.saturate(ip)
                 for oid_, t, name in goals:
                     path.oblige(oid_, t, kind="post", clause=name)
